@@ -749,6 +749,20 @@ variant("xtext-indexbyte-guard",
 	}""", """	if strings.IndexByte(val, '+') < 0 {
 		return val, nil
 	}"""))
+variant("rcptstatus-helper-correct",
+  ("conn.go", """			for i, rcpt := range c.recipients {
+				code, enchCode, msg := dataErrorToStatus(<-c.bdatStatus.status[i])
+				c.writeResponse(code, enchCode, "<"+rcpt+"> "+msg)
+			}""", """			for i, rcpt := range c.recipients {
+				c.writeRcptStatus(rcpt, <-c.bdatStatus.status[i])
+			}"""),
+  ("conn.go", """	for i, rcpt := range c.recipients {
+		code, enchCode, msg := dataErrorToStatus(<-status.status[i])
+		c.writeResponse(code, enchCode, "<"+rcpt+"> "+msg)
+	}""", """	for i, rcpt := range c.recipients {
+		c.writeRcptStatus(rcpt, <-status.status[i])
+	}"""),
+  ("conn.go", "func dataErrorToStatus(err error) (code int, enchCode EnhancedCode, msg string) {", "// writeRcptStatus sends the LMTP reply for one recipient.\nfunc (c *Conn) writeRcptStatus(rcpt string, err error) {\n	code, enchCode, msg := dataErrorToStatus(err)\n	c.writeResponse(code, enchCode, \"<\"+rcpt+\"> \"+msg)\n}\n\nfunc dataErrorToStatus(err error) (code int, enchCode EnhancedCode, msg string) {"))
 if sys.argv[1:] == ['--export']:
     out = [{"id": "benign-" + n, "edits": [{"file": f, "old": o, "new": w} for f, o, w in V[n]]} for n in V]
     json.dump(out, open('/verif/liveness/benign.json', 'w'), indent=1)
